@@ -205,7 +205,7 @@ def ob_reachable(P):
     """every resting order is covered by an available ticket (so a draining match reaches it)"""
     h = P.c.h
     return {'name': 'quiescence: every resting order is covered by an available ticket (not stranded)',
-            'goal': S.And(P.live, S.Not(h.rep_invariant(P.final_level)))}
+            'goal': S.And(P.live, S.Not(h.rep_invariant(P.final_level, coverage_only=True)))}
 
 
 def ob_queue(P):
@@ -239,7 +239,7 @@ def ob_queue(P):
     return [{'name': 'queue: every order is handed out exactly once (one pop or one remove) or still rests',
              'goal': S.And(P.live, S.Not(S.And(conj)))},
             {'name': 'queue: every resting entry is covered by an available ticket',
-             'goal': S.And(P.live, S.Not(h.rep_invariant(P.final_level)))}]
+             'goal': S.And(P.live, S.Not(h.rep_invariant(P.final_level, coverage_only=True)))}]
 
 
 def ob_ack(P):
